@@ -37,6 +37,7 @@ CORR_N = {
     'wsgi.py': {'quick': 3000, 'thorough': 30000},
     'regex.py': {'quick': 4000, 'thorough': 50000},
     'unicode.py': {'quick': 4000, 'thorough': 30000},
+    'standards.py': {'quick': 6000, 'thorough': 40000},
 }
 
 PROPS = {
@@ -47,7 +48,7 @@ PROPS = {
     'C05': {'search': 'c05', 'scope': scope_funcs(names={'validate'}, prefixes=['calc_', 'checksum', '_calc'])},
     'C06': {'search': 'c06', 'corr': ['checksum.py'],
             'scope': scope_funcs(modules=set(common.GENERIC_MODULES))},
-    'C07': {'search': 'c07', 'scope': scope_funcs(names={'validate'}, modules={
+    'C07': {'search': 'c07', 'corr': ['standards.py'], 'scope': scope_funcs(names={'validate'}, modules={
         'stdnum.isbn', 'stdnum.ean', 'stdnum.issn', 'stdnum.ismn', 'stdnum.isin', 'stdnum.iban', 'stdnum.imei',
         'stdnum.iso11649', 'stdnum.isni', 'stdnum.lei', 'stdnum.grid', 'stdnum.cusip', 'stdnum.gb.sedol', 'stdnum.figi',
         'stdnum.imo', 'stdnum.casrn', 'stdnum.bic', 'stdnum.isrc', 'stdnum.bitcoin'})},
